@@ -222,73 +222,32 @@ def run(chk):
             ok = any(isinstance(n, ast.Assign) and unparse(n.targets[0]) == "_df['residuals']" and unparse(n.value) == "_df['observed'] - _df['predicted']" for n in ast.walk(f.node))
             r1.require(ok, f"{f.key}|residuals", f.where(), "residuals must be observed - predicted")
             # ordering: the filter precedes the residual column and the return
-    # daily error metrics
+    # daily error metrics: _get_error_metrics and the bookkeeping in _fit interpreted on sympy-valued stand-ins (rules/daily_errors.py)
+    from rules.daily_errors import ORDER, error_metric_outcomes, judge_error_metrics, stored_errors
     dm = chk.repo.cls(*DAILY_MODEL)
     gem = method(chk, dm, "_get_error_metrics")
-    try:
-        c = Converter()
-        # the stacked arrays: <A> = np.hstack(<L>) where the list <L> collects <component>.resid / .obs inside the loop over the components
-        stacked = {}
-        loops = [x for x in ast.walk(gem.node) if isinstance(x, ast.For)]
-        for s in gem.node.body:
-            if isinstance(s, ast.Assign) and isinstance(s.targets[0], ast.Name) and isinstance(s.value, ast.Call) and unparse(s.value.func) in ("np.hstack", "np.concatenate") and len(s.value.args) == 1 \
-                    and isinstance(s.value.args[0], ast.Name):
-                L = s.value.args[0].id
-                apps = [x for lp in loops for x in ast.walk(lp) if isinstance(x, ast.Call) and isinstance(x.func, ast.Attribute) and x.func.attr == "append" and unparse(x.func.value) == L and len(x.args) == 1]
-                inits = [x for x in gem.node.body if isinstance(x, ast.Assign) and unparse(x.targets[0]) == L and unparse(x.value) in ("[]", "list()")]
-                kinds = {a.args[0].attr for a in apps if isinstance(a.args[0], ast.Attribute)}
-                if len(apps) == 1 and len(inits) == 1 and len(kinds) == 1 and inits[0].lineno < loops[0].lineno < s.lineno:
-                    stacked[kinds.pop()] = s.targets[0].id
-        r1.require(set(stacked) == {"resid", "obs"}, f"{gem.key}|stacked-components", gem.where(),
-                   f"RMSE/MAE must be computed over the stacked residuals/observations of all components of the split (np.hstack of the per-component .resid / .obs lists); found {stacked}")
-        c.env[stacked.get("resid", "resid")] = sym("resid")
-        c.env[stacked.get("obs", "obs")] = sym("obs")
-        tail = [s for s in gem.node.body if isinstance(s, (ast.Assign, ast.Return)) and s.lineno > max(x.lineno for x in ast.walk(gem.node) if isinstance(x, ast.For))]
-        # keep only the scalar assignments after the loop (the stacked arrays are the atoms)
-        body = [s for s in tail if not (isinstance(s, ast.Assign) and isinstance(s.value, ast.Call) and unparse(s.value.func) in ("np.hstack", "np.concatenate"))]
-        # the weighted accumulators keep their reference names whatever the locals are called: <acc> += <component>.wSSE / .N
-        for lp in loops:
-            for x in ast.walk(lp):
-                if isinstance(x, ast.AugAssign) and isinstance(x.op, ast.Add) and isinstance(x.target, ast.Name) and isinstance(x.value, ast.Attribute) and x.value.attr in ("wSSE", "N"):
-                    c.env[x.target.id] = sym(x.value.attr)
-        ret = c.run_body(body)
-        for pos, ref in spec["DAILY_ERROR"].items():
-            want = parse_ref(ref)
-            r1.require(isinstance(ret, list) and len(ret) == 5 and equal(ret[pos], want), f"{gem.key}|position:{pos}", gem.where(),
-                       f"_get_error_metrics()[{pos}] = {ret[pos] if isinstance(ret, list) and len(ret) > pos else ret}, reference is {want}", sample={"statistic": f"daily error[{pos}]", "term": str(ret[pos]) if isinstance(ret, list) else None})
-    except Unsupported as e:
-        r1.require(False, f"{gem.key}|formulas", gem.where(), f"cannot establish the daily error metrics: {e}")
-    # the error dict stores them under the right names
     fit = method(chk, dm, "_fit")
-    names = {}
-    # self.error[<name>] must receive the value _get_error_metrics returns at <name>'s position (wRMSE, RMSE, MAE, CVRMSE, PNRMSE),
-    # whether the result is unpacked into names or indexed
-    ORDER = ["wRMSE", "RMSE", "MAE", "CVRMSE", "PNRMSE"]
-    rdf = ReachingDefs(fit.node)
-
-    def _position(e, at):
-        """index of the _get_error_metrics result that expression e denotes, or None"""
-        if isinstance(e, ast.Call) and unparse(e.func) in ("float", "np.float64") and len(e.args) == 1:
-            return _position(e.args[0], at)
-        if isinstance(e, ast.Subscript) and isinstance(e.slice, ast.Constant) and isinstance(e.slice.value, int) and isinstance(e.value, ast.Name):
-            vals = [rdf.value_of(d) for d in rdf.reaching(at, e.value.id)]
-            if vals and all(v is not None and isinstance(v, ast.Call) and unparse(v.func) == "self._get_error_metrics" for v in vals):
-                return e.slice.value
-        if isinstance(e, ast.Name):
-            for d in rdf.reaching(at, e.id):
-                us = rdf.unpack_source(d)
-                if us is not None and isinstance(us[0], ast.Call) and unparse(us[0].func) == "self._get_error_metrics":
-                    return us[1] if isinstance(us[1], int) else None
-        return None
-    got = {}
-    for s in walk_no_nested(fit.node):
-        if isinstance(s, ast.Assign) and isinstance(s.targets[0], ast.Subscript) and unparse(s.targets[0].value) == "self.error":
-            k = const_str(s.targets[0].slice)
-            pos = _position(s.value, s)
-            got[k] = pos
-            r1.require(k in ORDER and pos == ORDER.index(k), f"{fit.key}|error[{k}]", fit.where(s),
-                       f"self.error['{k}'] is assigned `{unparse(s.value)[:60]}` (position {pos} of the returned metrics; `{k}` is position {ORDER.index(k) if k in ORDER else '?'})")
-    r1.require(sorted(k for k in got if k) == sorted(ORDER), f"{fit.key}|unpack-order", fit.where(), f"_fit must store all five error metrics by name; found {sorted(map(str, got))}")
+    bad_pos = {}
+    n_out = 0
+    for o in error_metric_outcomes(chk, dm, gem):
+        n_out += 1
+        for pos, msg in judge_error_metrics(o):
+            bad_pos.setdefault(pos, msg)
+    r1.require(-1 not in bad_pos, f"{gem.key}|stacked-components", gem.where(), f"_get_error_metrics: {bad_pos.get(-1, '')}", sample={"scenarios": n_out})
+    for pos in range(5):
+        r1.require(pos not in bad_pos and -1 not in bad_pos, f"{gem.key}|position:{pos}", gem.where(),
+                   f"_get_error_metrics: {bad_pos.get(pos, bad_pos.get(-1, ''))} (RMSE/MAE over the stacked residuals of all components, wRMSE from the summed weighted squares and counts)",
+                   sample={"statistic": f"daily error[{pos}] = {ORDER[pos]}"})
+    got = stored_errors(chk, dm, fit, gem)
+    if "raises" in got:
+        r1.require(False, f"{fit.key}|unpack-order", fit.where(), f"_fit raises {got['raises']} while storing the error metrics")
+    else:
+        for k in ORDER:
+            r1.require(got.get(k) == ORDER.index(k), f"{fit.key}|error[{k}]", fit.where(),
+                       f"self.error['{k}'] holds {'position ' + str(got[k]) + ' (' + ORDER[got[k]] + ')' if isinstance(got.get(k), int) else got.get(k)} of the metrics _get_error_metrics(best_combination) returns; `{k}` is position {ORDER.index(k)}")
+        extra = sorted(k for k in got if k not in ORDER and k != "__base__")
+        r1.require(not extra, f"{fit.key}|unpack-order", fit.where(), f"_fit must store exactly the five error metrics by name; also found {extra}")
+        r1.require(got.get("__base__") == "base_0", f"{fit.key}|baseline-wRMSE", fit.where(), f"wRMSE_base must be the wRMSE (position 0) of the unsplit model; found {got.get('__base__')}")
 
     # ------------------------------------------------------------------ R16.2
     sd = chk.repo.try_func(MET, "_safe_divide")
